@@ -329,12 +329,20 @@ class Executor:
         # All checks passed: no need to run the step, just simulate the products.
         await self._skip(run, step_hash)
         async with self.db:
-            # If output hashes changed fortuitously,
-            # e.g. the user restored them to the expected state,
-            # we still want to record the new hash.
-            self.workflow.update_file_hashes(new_out_hashes, cause=HashUpdateCause.SUCCEEDED)
-            step.mark_completed(new_hash, False)
-            # Do not call `scheduler.record_run_stopped`, as no start time was recorded either.
+            if self._inputs_are_as_dispatched(step, inp_hashes):
+                # If output hashes changed fortuitously,
+                # e.g. the user restored them to the expected state,
+                # we still want to record the new hash.
+                self.workflow.update_file_hashes(new_out_hashes, cause=HashUpdateCause.SUCCEEDED)
+                step.mark_completed(new_hash, False)
+                # Do not call `scheduler.record_run_stopped`, as no start time was recorded either.
+            else:
+                # Hashing the outputs can take a while.
+                # When the producer of an input was made pending in the meantime,
+                # that did not reach this step, because it was being checked (not SUCCEEDED),
+                # and what was verified above is no longer what the step has to be judged by.
+                # Check it again once its inputs are available.
+                step.set_state(StepState.PENDING)
         self._report_step_counts()
 
     async def execute_job(
@@ -555,6 +563,23 @@ class Executor:
         if unexpected_input_changes:
             await self._drain_for_unexpected_input_changes()
         return run, None
+
+    @staticmethod
+    def _inputs_are_as_dispatched(step: Step, inp_hashes: Mapping[str, FileHash]) -> bool:
+        """Tell whether the inputs a job was derived from are still available and unchanged.
+
+        Must be called inside a database transaction.
+        """
+        current = {rec.path: rec for rec in step.inp_paths()}
+        for path, file_hash in inp_hashes.items():
+            rec = current.get(path)
+            if (
+                rec is None
+                or rec.state not in (FileState.BUILT, FileState.CONFIRMED)
+                or rec.hash != file_hash
+            ):
+                return False
+        return True
 
     @staticmethod
     def _input_changes_are_known(
